@@ -11,7 +11,7 @@ From Coq Require Import Reals.
 From Coquelicot Require Import Coquelicot.
 From Cheetah Require Import Base.Mat Optics.Maps Bmadx.Coords Bmadx.DriftX Bmadx.DriftXProofs Bmadx.DriftXJac Bmadx.Tdc Bmadx.TdcProofs
   Bmadx.QuadX Bmadx.QuadXProofs Bmadx.QuadXFlow Bmadx.QuadXJac
-  Bmadx.BendX Bmadx.BendXProofs Bmadx.BendXGeom Bmadx.BendXOrbit Bmadx.BendXJac Bmadx.BendXJacLoc Bmadx.BendXFlow Bmadx.BendXRefuted.
+  Bmadx.BendX Bmadx.BendXProofs Bmadx.BendXGeom Bmadx.BendXOrbit Bmadx.BendXJac Bmadx.BendXJacLoc Bmadx.BendXFlow Bmadx.BendXFixed Bmadx.BendXRefuted.
 Open Scope R_scope.
 
 (** sqrt_one(x) = sqrt(1+x) - 1 *)
@@ -370,6 +370,56 @@ Theorem C07_bendx_chain_sound : forall sel qd fen fex b E0 m x px y py tau delta
   bend_chain sel qd fen fex b E0 m x px y py tau delta P -> P (bend_bmadx_track fen fex b E0 m (mkc x px y py tau delta)).
 Proof. exact bend_chain_sound. Qed.
 
+(* ================================================================== Bmad-X dipole after the repair of finding F70
+   (model: [bendx_body_fixed], [bend_bmadx_track_fixed] in Bmadx/BendX.v:  theta_p <- theta_p - 4 pi round((theta_p - angle)/(4 pi));
+   the theorems above are about the code before the repair and stay true of that definition; the harness selects the variant by the
+   status of F70 in known_findings.json) *)
+
+(** torch.round as modelled (nearest integer, ties to even): any integer within 1/2 is the result *)
+Theorem C07_round_spec : forall x k, Rabs (x - IZR k) < 1 / 2 -> rnd x = IZR k.
+Proof. exact rnd_unique. Qed.
+
+(** the repair changes y and z only: x', px', py', pz' of the repaired body are those of the old body for EVERY particle (sin has period
+    2 pi), so the uniform-field geometry, the sector map, its Jacobian and the x/px flow law carry over verbatim *)
+Theorem C07_bendx_fixed_changes_y_z_only : forall L ang p0c m q,
+  bx (bendx_body_fixed L ang p0c m q) = bx (bendx_body L ang p0c m q) /\
+  bpx (bendx_body_fixed L ang p0c m q) = bpx (bendx_body L ang p0c m q) /\
+  bpy (bendx_body_fixed L ang p0c m q) = bpy (bendx_body L ang p0c m q) /\
+  bpz (bendx_body_fixed L ang p0c m q) = bpz (bendx_body L ang p0c m q).
+Proof. exact body_fixed_x_px. Qed.
+
+(** the repaired body IS the old body wherever the old theta_p is within 2 pi of the bend angle ... *)
+Theorem C07_bendx_fixed_eq_old : forall L ang p0c m q,
+  Rabs (bb_thp_b L ang (bb_x2 L ang (bx q) (bpx q) (bpy q) (bpz q)) (bx q) (bpx q) (bpy q) (bpz q) (bb_quadrant L ang q) - ang) < 2 * PI ->
+  bendx_body_fixed L ang p0c m q = bendx_body L ang p0c m q.
+Proof. exact body_fixed_eq_old. Qed.
+
+(** ... in particular wherever arctan2 did not wrap (exit angle as computed, angle + phi1 - theta_p, in [-pi/2, pi/2]), i.e. wherever the
+    code before the repair was right: all six coordinates agree, so every theorem above that assumes [bb_nowrap] holds of the repaired code *)
+Theorem C07_bendx_fixed_eq_old_nowrap : forall L ang p0c m q, bb_nowrap L ang q ->
+  bendx_body_fixed L ang p0c m q = bendx_body L ang p0c m q.
+Proof. exact body_fixed_eq_old_nowrap. Qed.
+
+(** the path length of the repaired body is radius * (repaired theta_p) wherever the code is defined, for every bend angle *)
+Theorem C07_bendx_body_arc_length_fixed : forall L ang, L <> 0 -> ang <> 0 -> forall q, bb_defined L ang q ->
+  let x2 := bb_x2 L ang (bx q) (bpx q) (bpy q) (bpz q) in
+  bb_Lpf_b L ang x2 (bx q) (bpx q) (bpy q) (bpz q) (bb_quadrant L ang q) (bb_krq L ang q) (bb_zerof L ang q)
+  = bb_n (bpy q) (bpz q) / bb_g L ang * bb_thpf_b L ang x2 (bx q) (bpx q) (bpy q) (bpz q) (bb_quadrant L ang q) (bb_krq L ang q).
+Proof. exact body_arc_length_fixed. Qed.
+
+(** closed orbit of the repaired body: the design particle (0,0,0,0,z,0) is mapped to itself, z included, for 0 < length and EVERY
+    0 < |angle| < 2 pi except +-pi (where x2_t2 + x2_t3 = 0: the unselected c1 is 0/0); compare C07_bendx_body_design_orbit
+    (|angle| < pi) and C07_bendx_body_design_orbit_refuted (angle = -4) for the code before the repair *)
+Theorem C07_bendx_body_design_orbit_fixed : forall L ang p0c m z,
+  0 < L -> ang <> 0 -> - (2 * PI) < ang -> ang < 2 * PI -> ang <> PI -> ang <> - PI -> 0 < p0c ->
+  bendx_body_fixed L ang p0c m (mkb 0 0 0 0 z 0) = mkb 0 0 0 0 z 0.
+Proof. exact body_design_orbit_fixed. Qed.
+
+(** soundness of the evaluation chain of the repaired code (correspondence goals while F70 is listed as fixed) *)
+Theorem C07_bendx_chain_fixed_sound : forall sel qd k fen fex b E0 m x px y py tau delta P,
+  bend_chain_fixed sel qd k fen fex b E0 m x px y py tau delta P -> P (bend_bmadx_track_fixed fen fex b E0 m (mkc x px y py tau delta)).
+Proof. exact bend_chain_fixed_sound. Qed.
+
 Print Assumptions C07_sqrt_one_spec.
 Print Assumptions C07_driftx_dz.
 Print Assumptions C07_driftx_straight_line.
@@ -416,3 +466,10 @@ Print Assumptions C07_bendx_body_flow.
 Print Assumptions C07_bendx_body_flow_x_px.
 Print Assumptions C07_bendx_body_y_z_closed_form.
 Print Assumptions C07_sector_entries_vs_base.
+Print Assumptions C07_round_spec.
+Print Assumptions C07_bendx_fixed_changes_y_z_only.
+Print Assumptions C07_bendx_fixed_eq_old.
+Print Assumptions C07_bendx_fixed_eq_old_nowrap.
+Print Assumptions C07_bendx_body_arc_length_fixed.
+Print Assumptions C07_bendx_body_design_orbit_fixed.
+Print Assumptions C07_bendx_chain_fixed_sound.
